@@ -5,6 +5,7 @@ CONSTANTS
   RPrefixes = {}
   BodyToks = {}
   BodyLen = 0
+  ImsFmts = {}
   CondRanges = {}
   MaxReq = 1000000
 CONSTRAINT Report
